@@ -148,16 +148,39 @@ class SDateTime:
             raise ValueError("datetime model: field out of range (or year outside 1901..2099)")
         self._f = (y, m, d, h, mi, s)
         yy = y - 1901
-        self.n = z3.simplify(365 * yy + yy / 4 + _cum(m, leap) + d - 1)
-        self.sod = z3.simplify(3600 * h + 60 * mi + s)
+        self._n = z3.simplify(365 * yy + yy / 4 + _cum(m, leap) + d - 1)
+        self._sod = z3.simplify(3600 * h + 60 * mi + s)
+        self.tot = z3.simplify(self._n * 86400 + self._sod)
 
     @classmethod
     def _of(cls, n, sod):
         """From (day number, second of day); both must already be in range."""
         o = object.__new__(cls)
-        o.n, o.sod = z3.simplify(n), z3.simplify(sod)
+        o._n, o._sod = z3.simplify(n), z3.simplify(sod)
+        o.tot = z3.simplify(o._n * 86400 + o._sod)
         o._f = None
         return o
+
+    @classmethod
+    def _of_total(cls, tot):
+        """From the total number of seconds since 1901-01-01 (the primary representation: sums of offsets stay linear)."""
+        o = object.__new__(cls)
+        o.tot = z3.simplify(tot)
+        o._n = o._sod = None
+        o._f = None
+        return o
+
+    @property
+    def n(self):
+        if self._n is None:
+            self._n = z3.simplify(self.tot / 86400)
+        return self._n
+
+    @property
+    def sod(self):
+        if self._sod is None:
+            self._sod = z3.simplify(self.tot % 86400)
+        return self._sod
 
     def _fields(self):
         if self._f is None:
@@ -184,11 +207,10 @@ class SDateTime:
     tzinfo = None
 
     def _shift(self, secs):
-        tot = self.sod + secs
-        n2, sod2 = self.n + tot / 86400, tot % 86400
-        if not cur().branch(z3.And(n2 >= 0, n2 <= N_MAX)):
+        tot = self.tot + secs
+        if not cur().branch(z3.And(tot >= 0, tot < (N_MAX + 1) * 86400)):
             raise OverflowError("datetime model: outside 1901..2099")
-        return SDateTime._of(n2, sod2)
+        return SDateTime._of_total(tot)
 
     def __add__(self, o):
         if isinstance(o, STimeDelta):
@@ -201,11 +223,11 @@ class SDateTime:
         if isinstance(o, STimeDelta):
             return self._shift(-o.s)
         if isinstance(o, SDateTime):
-            return STimeDelta._of((self.n - o.n) * 86400 + self.sod - o.sod)
+            return STimeDelta._of(self.tot - o.tot)
         return NotImplemented
 
     def _key(self):
-        return self.n * 86400 + self.sod
+        return self.tot
 
     def __eq__(self, o):
         return SBool(self._key() == o._key()) if isinstance(o, SDateTime) else NotImplemented
@@ -226,16 +248,16 @@ class SDateTime:
         return SBool(self._key() >= o._key())
 
     def __hash__(self):
-        return hash((self.n, self.sod))
+        return hash(self.tot)
 
     def isoformat(self, sep="T", timespec="auto"):
-        return IsoToken(self.n, self.sod)
+        return IsoToken(self.tot, z3.IntVal(0))
 
     def replace(self, **kw):
         raise Unsupported("datetime model: replace")
 
     def __repr__(self):
-        return f"SDateTime(n={self.n}, sod={self.sod})"
+        return f"SDateTime(tot={self.tot})"
 
 
 class DatetimeModule:
@@ -247,9 +269,8 @@ class DatetimeModule:
 
 def to_real_datetime(model, dt):
     """The real datetime of a model instant."""
-    n = model.eval(dt.n, model_completion=True).as_long()
-    sod = model.eval(dt.sod, model_completion=True).as_long()
-    return _real.datetime(1901, 1, 1) + _real.timedelta(days=n, seconds=sod)
+    tot = model.eval(dt.tot, model_completion=True).as_long()
+    return _real.datetime(1901, 1, 1) + _real.timedelta(seconds=tot)
 
 
 def real_to_key(d):
